@@ -78,8 +78,16 @@ Definition input_guard (inp : list Z) : bool :=
   | _ => true
   end.
 
+Fixpoint eq_listZ (a b : list Z) : bool :=
+  match a, b with
+  | [], [] => true
+  | x :: a', y :: b' => (x =? y) && eq_listZ a' b'
+  | _, _ => false
+  end.
+
 (* known-finding shape of a failing case: 1 = D10 (a container without batch resources is
-   ignored by the pod-level values); every other failure is 0 *)
+   ignored by the pod-level values) AND the implementation's whole observable equals the faithful
+   model's, so that no other deviation can hide behind the recorded shape; every other failure is 0 *)
 Definition finding_sig (inp o : list Z) : Z :=
   let '(_, gw, cs) := decode inp in
-  if well_sized (length cs) o && d10_shape gw cs (dec_obs o) then 1 else 0.
+  if well_sized (length cs) o && d10_shape gw cs (dec_obs o) && eq_listZ (run_case inp) o then 1 else 0.
